@@ -8,10 +8,15 @@
 // RFC 1071 worked example and to published packets.
 //
 // Checksum arithmetic is SAT-hard (DESIGN.md section 3, probes 9/10c): packet-level harnesses keep
-// <= ~6 symbolic 16-bit words per query; which bytes are symbolic is chosen by a bit mask
+// <= ~4-6 symbolic 16-bit words per query; which bytes are symbolic is chosen by a bit mask
 // (`pick`), the other bytes are fixed non-zero patterns, so a region the crate forgot to sum is
 // still noticed.  Every header field, both pseudo-header addresses, the length and each payload
 // position is symbolic in at least one `_w<k>` instance.
+//
+// Harness-side helpers used by packet harnesses are loop-free (macro-unrolled), so `unwind=` only
+// has to cover the crate's own loops: a large bound makes CBMC unroll `TcpRepr::parse`'s option loop
+// and the NDISC option loops that many times as soon as a header byte is symbolic (out of memory at
+// unwind 24, measured).
 #[cfg(all(
     feature = "medium-ieee802154",
     feature = "proto-dhcpv4",
@@ -24,6 +29,13 @@ mod v_wire_cksum {
     use crate::phy::{Checksum, ChecksumCapabilities};
     use crate::verif_common::*;
     use crate::wire::*;
+
+    /// `unrolled!(k in [0, 1, 2] { body })` expands `body` once per literal with `k` bound to it
+    macro_rules! unrolled {
+        ($k:ident in [$($v:literal),*] $body:block) => {
+            $( { let $k: usize = $v; $body } )*
+        };
+    }
 
     // ------------------------------------------------------------------ the reference (oracle)
 
@@ -56,6 +68,25 @@ mod v_wire_cksum {
         ref_sum_from(0, data)
     }
 
+    /// the same sum, loop-free, for buffers of at most 48 bytes (word slot k covers bytes 2k, 2k+1)
+    fn ref_sum48_from(init: u16, data: &[u8]) -> u16 {
+        let n = data.len();
+        assert!(n <= 48, "prop:c08_harness_reference_buffer_bound");
+        let mut acc = init;
+        unrolled!(k in [0, 1, 2, 3, 4, 5, 6, 7, 8, 9, 10, 11, 12, 13, 14, 15, 16, 17, 18, 19, 20, 21, 22, 23] {
+            if 2 * k + 1 < n {
+                acc = oc_add(acc, be16(data[2 * k], data[2 * k + 1]));
+            } else if 2 * k < n {
+                acc = oc_add(acc, be16(data[2 * k], 0));
+            }
+        });
+        acc
+    }
+
+    fn ref_sum48(data: &[u8]) -> u16 {
+        ref_sum48_from(0, data)
+    }
+
     /// 0x0000 and 0xffff both represent zero in one's-complement arithmetic
     fn ones_eq(a: u16, b: u16) -> bool {
         a == b || (a == 0 && b == 0xffff) || (a == 0xffff && b == 0)
@@ -72,12 +103,10 @@ mod v_wire_cksum {
     /// RFC 8200 section 8.1 pseudo-header: src, dst, 32-bit upper-layer length, 3 zero bytes, next header
     fn ph6(src: &[u8; 16], dst: &[u8; 16], proto: u8, len: u32) -> [u8; 40] {
         let mut p = [0u8; 40];
-        let mut i = 0;
-        while i < 16 {
+        unrolled!(i in [0, 1, 2, 3, 4, 5, 6, 7, 8, 9, 10, 11, 12, 13, 14, 15] {
             p[i] = src[i];
             p[16 + i] = dst[i];
-            i += 1;
-        }
+        });
         p[32] = (len >> 24) as u8;
         p[33] = (len >> 16) as u8;
         p[34] = (len >> 8) as u8;
@@ -88,27 +117,28 @@ mod v_wire_cksum {
 
     fn ref_ph(v6: bool, src: &[u8; 16], dst: &[u8; 16], proto: u8, len: usize) -> u16 {
         if v6 {
-            ref_sum(&ph6(src, dst, proto, len as u32))
+            ref_sum48(&ph6(src, dst, proto, len as u32))
         } else {
-            ref_sum(&ph4(src, dst, proto, len as u16))
+            ref_sum48(&ph4(src, dst, proto, len as u16))
         }
     }
 
     /// the receiver's rule: the sum over pseudo-header and segment, checksum field included, is all ones
     fn ref_l4_ok(v6: bool, src: &[u8; 16], dst: &[u8; 16], proto: u8, seg: &[u8]) -> bool {
-        ref_sum_from(ref_ph(v6, src, dst, proto, seg.len()), seg) == 0xffff
+        ref_sum48_from(ref_ph(v6, src, dst, proto, seg.len()), seg) == 0xffff
     }
 
     /// UDP: the length field, not the buffer, delimits the datagram (RFC 768)
+    fn ref_udp_len_ok(seg: &[u8]) -> bool {
+        seg.len() >= 8 && be16(seg[4], seg[5]) as usize >= 8 && be16(seg[4], seg[5]) as usize <= seg.len()
+    }
+
     fn ref_udp_ok(v6: bool, src: &[u8; 16], dst: &[u8; 16], seg: &[u8]) -> bool {
-        if seg.len() < 8 {
+        if !ref_udp_len_ok(seg) {
             return false;
         }
         let l = be16(seg[4], seg[5]) as usize;
-        if l < 8 || l > seg.len() {
-            return false;
-        }
-        ref_sum_from(ref_ph(v6, src, dst, 17, l), &seg[..l]) == 0xffff
+        ref_sum48_from(ref_ph(v6, src, dst, 17, l), &seg[..l]) == 0xffff
     }
 
     /// IPv4 header: the IHL field delimits the summed region (RFC 791)
@@ -120,21 +150,19 @@ mod v_wire_cksum {
         if ihl < 20 || ihl > b.len() {
             return false;
         }
-        ref_sum(&b[..ihl]) == 0xffff
+        ref_sum48(&b[..ihl]) == 0xffff
     }
 
     // ------------------------------------------------------------------ symbolic-word selection
 
-    /// `fixed` with byte i replaced by a symbolic byte where bit i of `mask` is set
+    /// `fixed` with byte i (i < 16) replaced by a symbolic byte where bit i of `mask` is set
     fn pick<const N: usize>(fixed: [u8; N], mask: u32) -> [u8; N] {
         let mut out = fixed;
-        let mut i = 0;
-        while i < N {
-            if (mask >> i) & 1 == 1 {
+        unrolled!(i in [0, 1, 2, 3, 4, 5, 6, 7, 8, 9, 10, 11, 12, 13, 14, 15] {
+            if i < N && (mask >> i) & 1 == 1 {
                 out[i] = kani::any();
             }
-            i += 1;
-        }
+        });
         out
     }
 
@@ -162,31 +190,43 @@ mod v_wire_cksum {
         if kani::any() { Checksum::None } else { Checksum::Tx }
     }
 
-    /// XOR a non-zero corruption into one or two bytes of `buf[..n]` at symbolic positions
-    fn corrupt(buf: &mut [u8], n: usize) {
-        let p1 = any_lt(n);
-        let p2 = any_lt(n);
+    /// XOR a non-zero corruption into one or two bytes of `buf[first..n]` (n <= 28) at symbolic
+    /// positions.  Written as per-index conditional updates so that bytes outside `first..n` stay
+    /// concrete for the symbolic executor.
+    fn corrupt(buf: &mut [u8], first: usize, n: usize) {
+        let p1: usize = kani::any();
+        let p2: usize = kani::any();
         let m1: u8 = kani::any();
         let m2: u8 = kani::any();
+        kani::assume(first <= p1 && p1 < n && first <= p2 && p2 < n);
         kani::assume(m1 != 0);
-        // m2 == 0: single-byte corruption; same position twice must not cancel
+        // m2 == 0: single-byte corruption; the same position twice must not cancel
         kani::assume(p1 != p2 || m1 != m2);
-        buf[p1] ^= m1;
-        buf[p2] ^= m2;
+        unrolled!(i in [0, 1, 2, 3, 4, 5, 6, 7, 8, 9, 10, 11, 12, 13, 14, 15, 16, 17, 18, 19, 20, 21, 22, 23, 24, 25, 26, 27] {
+            if first <= i && i < n {
+                if p1 == i {
+                    buf[i] ^= m1;
+                }
+                if p2 == i {
+                    buf[i] ^= m2;
+                }
+            }
+        });
     }
 
     // ================================================================== (a) the routine itself
 
-    // @harness props=C08 cfg=KW tier=q to=120 mem=4 unwind=24 opts=nomem covers=1 funcs=wire::checksum::data;wire::checksum::combine;wire::checksum::pseudo_header_v4;wire::checksum::pseudo_header_v6 bounds=concrete_vectors:_RFC_1071_worked_example,_published_IPv4_header,_odd_length,_UDP/IPv4_and_ICMPv6_packets
+    // @harness props=C08 cfg=KW tier=q to=120 mem=4 unwind=8 opts=nomem covers=1 funcs=wire::checksum::data;wire::checksum::combine;wire::Ipv4Packet::verify_checksum bounds=concrete_vectors:_RFC_1071_worked_example,_published_IPv4_header,_odd_length,_UDP/IPv4_and_ICMPv6_packets
     #[kani::proof]
     pub(crate) fn cksum_ref_selfcheck() {
         // RFC 1071 section 3 worked example: 0001 f203 f4f5 f6f7 -> 2ddf0 -> ddf2
         let ex = [0x00u8, 0x01, 0xf2, 0x03, 0xf4, 0xf5, 0xf6, 0xf7];
-        assert!(ref_sum(&ex) == 0xddf2, "prop:c08_reference_matches_rfc1071_example");
+        assert!(ref_sum(&ex) == 0xddf2 && ref_sum48(&ex) == 0xddf2, "prop:c08_reference_matches_rfc1071_example");
         assert!(checksum::data(&ex) == 0xddf2, "prop:c08_data_matches_rfc1071_example");
         // odd length: the last byte is the HIGH byte of a zero-padded word
         let odd = [0x12u8, 0x34, 0x56];
-        assert!(ref_sum(&odd) == 0x6834 && checksum::data(&odd) == 0x6834, "prop:c08_odd_byte_padded_on_the_right");
+        assert!(ref_sum(&odd) == 0x6834 && ref_sum48(&odd) == 0x6834, "prop:c08_reference_pads_odd_byte_on_the_right");
+        assert!(checksum::data(&odd) == 0x6834, "prop:c08_data_pads_odd_byte_on_the_right");
         // widely published IPv4 header (checksum b861)
         let hdr = [
             0x45u8, 0x00, 0x00, 0x73, 0x00, 0x00, 0x40, 0x00, 0x40, 0x11, 0xb8, 0x61, 0xc0, 0xa8, 0x00, 0x01,
@@ -197,7 +237,7 @@ mod v_wire_cksum {
         let mut hdr0 = hdr;
         hdr0[10] = 0;
         hdr0[11] = 0;
-        assert!(!ref_sum(&hdr0) == 0xb861, "prop:c08_reference_computes_published_ipv4_checksum");
+        assert!(!ref_sum(&hdr0) == 0xb861 && !ref_sum48(&hdr0) == 0xb861, "prop:c08_reference_computes_published_ipv4_checksum");
         // UDP over IPv4, 192.168.1.1 -> 192.168.1.2, 48896 -> 53, payload aa 00 00 ff, checksum 124d
         let udp = [0xbfu8, 0x00, 0x00, 0x35, 0x00, 0x0c, 0x12, 0x4d, 0xaa, 0x00, 0x00, 0xff];
         let mut s4 = [0u8; 16];
@@ -274,13 +314,11 @@ mod v_wire_cksum {
         let n = any_le(4);
         let got = checksum::combine(&w[..n]);
         let mut want = 0u16;
-        let mut i = 0;
-        while i < 4 {
+        unrolled!(i in [0, 1, 2, 3] {
             if i < n {
                 want = oc_add(want, w[i]);
             }
-            i += 1;
-        }
+        });
         assert!(ones_eq(got, want), "prop:c08_combine_is_ones_complement_addition");
         assert!(got == want, "prop:c08_combine_same_zero_representation");
         kani::cover!(n == 4 && w[0] as u32 + w[1] as u32 + w[2] as u32 + w[3] as u32 > 0x2ffff, "three carries folded");
@@ -315,30 +353,30 @@ mod v_wire_cksum {
         // support: IPv6 payload_len is u16 everywhere) are outside the claim
         kani::assume(len <= 0xffff);
         let got = checksum::pseudo_header_v6(&Ipv6Address::from(src), &Ipv6Address::from(dst), IpProtocol::from(proto), len);
-        let want = ref_sum(&ph6(&src, &dst, proto, len));
+        let want = ref_sum48(&ph6(&src, &dst, proto, len));
         assert!(ones_eq(got, want), "prop:c08_pseudo_header_v6_equals_rfc8200_sum");
         kani::cover!(got == 0xffff, "negative zero pseudo-header sum");
     }
 
-    // @harness props=C08 cfg=KW tier=q to=600 mem=4 unwind=22 opts=nomem covers=1 funcs=wire::checksum::pseudo_header_v6 bounds=source_bytes_0..12_symbolic,_rest_fixed_non-zero
+    // @harness props=C08 cfg=KW tier=q to=600 mem=4 unwind=8 opts=nomem covers=1 funcs=wire::checksum::pseudo_header_v6 bounds=source_bytes_0..12_symbolic,_rest_fixed_non-zero
     #[kani::proof]
     pub(crate) fn cksum_pseudo_v6_w1() {
         pseudo_v6(0x0fff, 0, false, false);
     }
 
-    // @harness props=C08 cfg=KW tier=q to=600 mem=4 unwind=22 opts=nomem covers=1 funcs=wire::checksum::pseudo_header_v6 bounds=source_bytes_12..16_and_destination_bytes_0..4_symbolic,_rest_fixed_non-zero
+    // @harness props=C08 cfg=KW tier=q to=600 mem=4 unwind=8 opts=nomem covers=1 funcs=wire::checksum::pseudo_header_v6 bounds=source_bytes_12..16_and_destination_bytes_0..4_symbolic,_rest_fixed_non-zero
     #[kani::proof]
     pub(crate) fn cksum_pseudo_v6_w2() {
         pseudo_v6(0xf000, 0x000f, false, false);
     }
 
-    // @harness props=C08 cfg=KW tier=q to=600 mem=4 unwind=22 opts=nomem covers=1 funcs=wire::checksum::pseudo_header_v6 bounds=destination_bytes_4..12_symbolic,_rest_fixed_non-zero
+    // @harness props=C08 cfg=KW tier=q to=600 mem=4 unwind=8 opts=nomem covers=1 funcs=wire::checksum::pseudo_header_v6 bounds=destination_bytes_4..12_symbolic,_rest_fixed_non-zero
     #[kani::proof]
     pub(crate) fn cksum_pseudo_v6_w3() {
         pseudo_v6(0, 0x0ff0, false, false);
     }
 
-    // @harness props=C08 cfg=KW tier=q to=600 mem=4 unwind=22 opts=nomem covers=1 funcs=wire::checksum::pseudo_header_v6 bounds=destination_bytes_12..16,_all_256_next-header_values,_all_lengths_0..=65535_symbolic,_rest_fixed_non-zero
+    // @harness props=C08 cfg=KW tier=q to=600 mem=4 unwind=8 opts=nomem covers=1 funcs=wire::checksum::pseudo_header_v6 bounds=destination_bytes_12..16,_all_256_next-header_values,_all_lengths_0..=65535_symbolic,_rest_fixed_non-zero
     #[kani::proof]
     pub(crate) fn cksum_pseudo_v6_w4() {
         pseudo_v6(0, 0xf000, true, true);
@@ -370,11 +408,9 @@ mod v_wire_cksum {
             repr.payload_len = 8;
         }
         let mut buf: [u8; 28] = kani::any(); // stale buffer contents must not matter
-        let mut i = 0;
-        while i < 8 {
+        unrolled!(i in [0, 1, 2, 3, 4, 5, 6, 7] {
             buf[20 + i] = PAY_FIX[i];
-            i += 1;
-        }
+        });
         repr.emit(&mut Ipv4Packet::new_unchecked(&mut buf[..]), caps);
         buf
     }
@@ -382,9 +418,11 @@ mod v_wire_cksum {
     /// echo field bytes: 0..2 ident, 2..4 sequence number
     const ECHO_FIX: [u8; 4] = [0x12, 0x34, 0xab, 0xcd];
 
-    /// ICMPv4 / ICMPv6 echo into `buf[..8 + plen]`; returns the packet length
+    /// ICMPv4 / ICMPv6 echo into `buf[..8 + plen]`; returns the packet length.
+    /// kind 0 = request, 1 = reply, anything else = symbolic choice
     fn echo_emit(
         v6: bool,
+        kind: u8,
         src: &[u8; 16],
         dst: &[u8; 16],
         fmask: u32,
@@ -395,7 +433,7 @@ mod v_wire_cksum {
     ) -> usize {
         let f = pick(ECHO_FIX, fmask);
         let data = pick(PAY_FIX, pmask);
-        let reply: bool = kani::any();
+        let reply: bool = if kind <= 1 { kind == 1 } else { kani::any() };
         let ident = be16(f[0], f[1]);
         let seq_no = be16(f[2], f[3]);
         let n = 8 + plen;
@@ -425,7 +463,7 @@ mod v_wire_cksum {
     }
 
     fn ref_echo_ok(v6: bool, src: &[u8; 16], dst: &[u8; 16], seg: &[u8]) -> bool {
-        if v6 { ref_l4_ok(true, src, dst, 58, seg) } else { ref_sum(seg) == 0xffff }
+        if v6 { ref_l4_ok(true, src, dst, 58, seg) } else { ref_sum48(seg) == 0xffff }
     }
 
     fn echo_parse_ok(v6: bool, src: &[u8; 16], dst: &[u8; 16], seg: &[u8], caps: &ChecksumCapabilities) -> bool {
@@ -540,18 +578,32 @@ mod v_wire_cksum {
     }
 
     // ================================================================== (b) emitted packets verify
+    // Cover witnesses: a checksum field of 0000 means the rest of the packet sums to negative zero
+    // (ffff); a field of ffff is impossible except for UDP (the sum of a non-zero packet is never 0000).
 
     fn emit_valid_ipv4(mask: u32) {
         let buf = ipv4_emit(mask, false, &ChecksumCapabilities::default());
         assert!(buf[0] == 0x45, "prop:c08_emitted_ipv4_header_is_20_bytes");
         assert!(ref_ipv4_ok(&buf[..20]), "prop:c08_emitted_ipv4_header_checksum_verifies");
-        kani::cover!(be16(buf[10], buf[11]) == 0xffff, "emitted header checksum ffff");
-        kani::cover!(be16(buf[10], buf[11]) == 0x0001, "emitted header checksum 0001");
+        kani::cover!(be16(buf[10], buf[11]) == 0x0000, "emitted header checksum 0000");
     }
 
-    // @harness props=C08 cfg=KW tier=q to=600 mem=4 unwind=14 opts=nomem covers=2 funcs=wire::Ipv4Repr::emit;wire::Ipv4Packet::fill_checksum bounds=every_Ipv4Repr_field_symbolic_(addresses,_protocol,_hop_limit,_payload_length_0..=65515):_6_words
+    // @harness props=C08 cfg=KW tier=q to=600 mem=4 unwind=8 opts=nomem covers=1 funcs=wire::Ipv4Repr::emit;wire::Ipv4Packet::fill_checksum bounds=source_and_destination_address_symbolic_(4_words),_rest_fixed
     #[kani::proof]
-    pub(crate) fn emit_valid_ipv4_all() {
+    pub(crate) fn emit_valid_ipv4_w1() {
+        emit_valid_ipv4(0x0ff);
+    }
+
+    // @harness props=C08 cfg=KW tier=q to=600 mem=4 unwind=8 opts=nomem covers=1 funcs=wire::Ipv4Repr::emit;wire::Ipv4Packet::fill_checksum bounds=protocol_(all_256),_hop_limit,_payload_length_0..=65515,_destination_bytes_2..4_symbolic_(3_words)
+    #[kani::proof]
+    pub(crate) fn emit_valid_ipv4_w2() {
+        emit_valid_ipv4(0xfc0);
+    }
+
+    // thorough: every Ipv4Repr field at once (6 words)
+    // @harness props=C08 cfg=KW tier=t to=3600 mem=8 unwind=8 opts=nomem covers=1 funcs=wire::Ipv4Repr::emit;wire::Ipv4Packet::fill_checksum bounds=every_Ipv4Repr_field_symbolic_(addresses,_protocol,_hop_limit,_payload_length_0..=65515):_6_words
+    #[kani::proof]
+    pub(crate) fn emit_valid_ipv4_full() {
         emit_valid_ipv4(0xfff);
     }
 
@@ -560,45 +612,51 @@ mod v_wire_cksum {
         let dst = pick(DST_FIX, dmask);
         let plen = if plen_sym { any_le(plen_max) } else { plen_max };
         let mut buf: [u8; 16] = kani::any();
-        let n = echo_emit(v6, &src, &dst, fmask, pmask, plen, &ChecksumCapabilities::default(), &mut buf);
+        let n = echo_emit(v6, 2, &src, &dst, fmask, pmask, plen, &ChecksumCapabilities::default(), &mut buf);
         assert!(ref_echo_ok(v6, &src, &dst, &buf[..n]), "prop:c08_emitted_icmp_checksum_verifies");
-        kani::cover!(be16(buf[2], buf[3]) == 0xffff, "emitted checksum ffff");
+        kani::cover!(be16(buf[2], buf[3]) == 0x0000, "emitted checksum 0000");
     }
 
-    // @harness props=C08 cfg=KW tier=q to=600 mem=4 unwind=12 opts=nomem covers=1 funcs=wire::Icmpv4Repr::emit;wire::Icmpv4Packet::fill_checksum bounds=echo_request/reply,_6_data_bytes;_ident,_seq,_data_0..6_symbolic_(5_words)
+    // @harness props=C08 cfg=KW tier=q to=600 mem=4 unwind=8 opts=nomem covers=1 funcs=wire::Icmpv4Repr::emit;wire::Icmpv4Packet::fill_checksum bounds=echo_request/reply,_4_data_bytes;_ident,_seq,_data_0..4_symbolic_(4_words)
     #[kani::proof]
     pub(crate) fn emit_valid_icmpv4_w1() {
-        emit_valid_echo(false, 0, 0, 0xf, 0x3f, 6, false);
+        emit_valid_echo(false, 0, 0, 0xf, 0x0f, 4, false);
     }
 
-    // @harness props=C08 cfg=KW tier=q to=600 mem=4 unwind=12 opts=nomem covers=1 funcs=wire::Icmpv4Repr::emit;wire::Icmpv4Packet::fill_checksum bounds=echo_request/reply,_data_length_0..=7_symbolic;_seq_and_data_2..7_symbolic
+    // @harness props=C08 cfg=KW tier=q to=600 mem=4 unwind=8 opts=nomem covers=1 funcs=wire::Icmpv4Repr::emit;wire::Icmpv4Packet::fill_checksum bounds=echo_request/reply,_data_length_0..=7_symbolic;_seq_and_data_2..7_symbolic
     #[kani::proof]
     pub(crate) fn emit_valid_icmpv4_w2() {
         emit_valid_echo(false, 0, 0, 0xc, 0x7c, 7, true);
     }
 
-    // @harness props=C08 cfg=KW tier=q to=600 mem=4 unwind=24 opts=nomem covers=1 funcs=wire::Icmpv6Repr::emit;wire::Icmpv6Packet::fill_checksum bounds=echo_request/reply,_4_data_bytes;_source_bytes_0..12_symbolic
+    // @harness props=C08 cfg=KW tier=q to=600 mem=4 unwind=8 opts=nomem covers=1 funcs=wire::Icmpv6Repr::emit;wire::Icmpv6Packet::fill_checksum bounds=echo_request/reply,_4_data_bytes;_source_bytes_0..8_symbolic
     #[kani::proof]
     pub(crate) fn emit_valid_icmpv6_w1() {
-        emit_valid_echo(true, 0x0fff, 0, 0, 0, 4, false);
+        emit_valid_echo(true, 0x00ff, 0, 0, 0, 4, false);
     }
 
-    // @harness props=C08 cfg=KW tier=q to=600 mem=4 unwind=24 opts=nomem covers=1 funcs=wire::Icmpv6Repr::emit;wire::Icmpv6Packet::fill_checksum bounds=echo_request/reply,_4_data_bytes;_source_bytes_12..16_and_destination_bytes_0..8_symbolic
+    // @harness props=C08 cfg=KW tier=q to=600 mem=4 unwind=8 opts=nomem covers=1 funcs=wire::Icmpv6Repr::emit;wire::Icmpv6Packet::fill_checksum bounds=echo_request/reply,_4_data_bytes;_source_bytes_8..16_symbolic
     #[kani::proof]
     pub(crate) fn emit_valid_icmpv6_w2() {
-        emit_valid_echo(true, 0xf000, 0x00ff, 0, 0, 4, false);
+        emit_valid_echo(true, 0xff00, 0, 0, 0, 4, false);
     }
 
-    // @harness props=C08 cfg=KW tier=q to=600 mem=4 unwind=24 opts=nomem covers=1 funcs=wire::Icmpv6Repr::emit;wire::Icmpv6Packet::fill_checksum bounds=echo_request/reply,_4_data_bytes;_destination_bytes_8..16,_ident,_seq_symbolic
+    // @harness props=C08 cfg=KW tier=q to=600 mem=4 unwind=8 opts=nomem covers=1 funcs=wire::Icmpv6Repr::emit;wire::Icmpv6Packet::fill_checksum bounds=echo_request/reply,_4_data_bytes;_destination_bytes_0..8_symbolic
     #[kani::proof]
     pub(crate) fn emit_valid_icmpv6_w3() {
-        emit_valid_echo(true, 0, 0xff00, 0xf, 0, 4, false);
+        emit_valid_echo(true, 0, 0x00ff, 0, 0, 4, false);
     }
 
-    // @harness props=C08 cfg=KW tier=q to=600 mem=4 unwind=24 opts=nomem covers=1 funcs=wire::Icmpv6Repr::emit;wire::Icmpv6Packet::fill_checksum bounds=echo_request/reply,_data_length_0..=7_symbolic;_ident_and_data_0..7_symbolic
+    // @harness props=C08 cfg=KW tier=q to=600 mem=4 unwind=8 opts=nomem covers=1 funcs=wire::Icmpv6Repr::emit;wire::Icmpv6Packet::fill_checksum bounds=echo_request/reply,_4_data_bytes;_destination_bytes_8..16_symbolic
     #[kani::proof]
     pub(crate) fn emit_valid_icmpv6_w4() {
-        emit_valid_echo(true, 0, 0, 0x3, 0x7f, 7, true);
+        emit_valid_echo(true, 0, 0xff00, 0, 0, 4, false);
+    }
+
+    // @harness props=C08 cfg=KW tier=q to=600 mem=4 unwind=8 opts=nomem covers=1 funcs=wire::Icmpv6Repr::emit;wire::Icmpv6Packet::fill_checksum bounds=echo_request/reply,_data_length_0..=5_symbolic;_ident,_seq_and_data_0..4_symbolic
+    #[kani::proof]
+    pub(crate) fn emit_valid_icmpv6_w5() {
+        emit_valid_echo(true, 0, 0, 0xf, 0x0f, 5, true);
     }
 
     fn emit_valid_udp(v6: bool, smask: u32, dmask: u32, fmask: u32, pmask: u32, plen_max: usize, plen_sym: bool) {
@@ -614,40 +672,52 @@ mod v_wire_cksum {
         kani::cover!(be16(buf[6], buf[7]) == 0xffff, "computed zero transmitted as ffff");
     }
 
-    // @harness props=C08 cfg=KW tier=q to=600 mem=4 unwind=12 opts=nomem covers=1 funcs=wire::UdpRepr::emit;wire::UdpPacket::fill_checksum bounds=4_payload_bytes;_both_IPv4_addresses_and_both_ports_symbolic_(6_words)
+    // @harness props=C08 cfg=KW tier=q to=600 mem=4 unwind=8 opts=nomem covers=1 funcs=wire::UdpRepr::emit;wire::UdpPacket::fill_checksum bounds=4_payload_bytes;_both_IPv4_addresses_symbolic_(4_words)
     #[kani::proof]
     pub(crate) fn emit_valid_udp4_w1() {
-        emit_valid_udp(false, 0xf, 0xf, 0xf, 0, 4, false);
+        emit_valid_udp(false, 0xf, 0xf, 0, 0, 4, false);
     }
 
-    // @harness props=C08 cfg=KW tier=q to=600 mem=4 unwind=12 opts=nomem covers=1 funcs=wire::UdpRepr::emit;wire::UdpPacket::fill_checksum bounds=payload_length_0..=7_symbolic;_source_port_and_payload_0..7_symbolic
+    // @harness props=C08 cfg=KW tier=q to=600 mem=4 unwind=8 opts=nomem covers=1 funcs=wire::UdpRepr::emit;wire::UdpPacket::fill_checksum bounds=payload_length_0..=5_symbolic;_both_ports_and_payload_0..4_symbolic
     #[kani::proof]
     pub(crate) fn emit_valid_udp4_w2() {
-        emit_valid_udp(false, 0, 0, 0x3, 0x7f, 7, true);
+        emit_valid_udp(false, 0, 0, 0xf, 0x0f, 5, true);
     }
 
-    // @harness props=C08 cfg=KW tier=q to=600 mem=4 unwind=24 opts=nomem covers=1 funcs=wire::UdpRepr::emit;wire::UdpPacket::fill_checksum bounds=4_payload_bytes;_source_bytes_0..12_symbolic
+    // @harness props=C08 cfg=KW tier=q to=600 mem=4 unwind=8 opts=nomem covers=1 funcs=wire::UdpRepr::emit;wire::UdpPacket::fill_checksum bounds=7_payload_bytes_(odd_length);_payload_2..7_symbolic
+    #[kani::proof]
+    pub(crate) fn emit_valid_udp4_w3() {
+        emit_valid_udp(false, 0, 0, 0, 0x7c, 7, false);
+    }
+
+    // @harness props=C08 cfg=KW tier=q to=600 mem=4 unwind=8 opts=nomem covers=1 funcs=wire::UdpRepr::emit;wire::UdpPacket::fill_checksum bounds=4_payload_bytes;_source_bytes_0..8_symbolic
     #[kani::proof]
     pub(crate) fn emit_valid_udp6_w1() {
-        emit_valid_udp(true, 0x0fff, 0, 0, 0, 4, false);
+        emit_valid_udp(true, 0x00ff, 0, 0, 0, 4, false);
     }
 
-    // @harness props=C08 cfg=KW tier=q to=600 mem=4 unwind=24 opts=nomem covers=1 funcs=wire::UdpRepr::emit;wire::UdpPacket::fill_checksum bounds=4_payload_bytes;_source_bytes_12..16_and_destination_bytes_0..8_symbolic
+    // @harness props=C08 cfg=KW tier=q to=600 mem=4 unwind=8 opts=nomem covers=1 funcs=wire::UdpRepr::emit;wire::UdpPacket::fill_checksum bounds=4_payload_bytes;_source_bytes_8..16_symbolic
     #[kani::proof]
     pub(crate) fn emit_valid_udp6_w2() {
-        emit_valid_udp(true, 0xf000, 0x00ff, 0, 0, 4, false);
+        emit_valid_udp(true, 0xff00, 0, 0, 0, 4, false);
     }
 
-    // @harness props=C08 cfg=KW tier=q to=600 mem=4 unwind=24 opts=nomem covers=1 funcs=wire::UdpRepr::emit;wire::UdpPacket::fill_checksum bounds=4_payload_bytes;_destination_bytes_8..16_and_both_ports_symbolic
+    // @harness props=C08 cfg=KW tier=q to=600 mem=4 unwind=8 opts=nomem covers=1 funcs=wire::UdpRepr::emit;wire::UdpPacket::fill_checksum bounds=4_payload_bytes;_destination_bytes_0..8_symbolic
     #[kani::proof]
     pub(crate) fn emit_valid_udp6_w3() {
-        emit_valid_udp(true, 0, 0xff00, 0xf, 0, 4, false);
+        emit_valid_udp(true, 0, 0x00ff, 0, 0, 4, false);
     }
 
-    // @harness props=C08 cfg=KW tier=q to=600 mem=4 unwind=24 opts=nomem covers=1 funcs=wire::UdpRepr::emit;wire::UdpPacket::fill_checksum bounds=payload_length_0..=7_symbolic;_destination_port_and_payload_0..7_symbolic
+    // @harness props=C08 cfg=KW tier=q to=600 mem=4 unwind=8 opts=nomem covers=1 funcs=wire::UdpRepr::emit;wire::UdpPacket::fill_checksum bounds=4_payload_bytes;_destination_bytes_8..16_symbolic
     #[kani::proof]
     pub(crate) fn emit_valid_udp6_w4() {
-        emit_valid_udp(true, 0, 0, 0xc, 0x7f, 7, true);
+        emit_valid_udp(true, 0, 0xff00, 0, 0, 4, false);
+    }
+
+    // @harness props=C08 cfg=KW tier=q to=600 mem=4 unwind=8 opts=nomem covers=1 funcs=wire::UdpRepr::emit;wire::UdpPacket::fill_checksum bounds=payload_length_0..=5_symbolic;_both_ports_and_payload_0..4_symbolic
+    #[kani::proof]
+    pub(crate) fn emit_valid_udp6_w5() {
+        emit_valid_udp(true, 0, 0, 0xf, 0x0f, 5, true);
     }
 
     fn emit_valid_tcp(v6: bool, smask: u32, dmask: u32, fmask: u32, omask: u32, pmask: u32, shape: u8, ctl_sym: bool, plen_max: usize, plen_sym: bool) {
@@ -658,71 +728,83 @@ mod v_wire_cksum {
         let n = tcp_emit(v6, &src, &dst, fmask, omask, pmask, shape, ctl_sym, plen, &ChecksumCapabilities::default(), &mut buf);
         assert!(((buf[12] >> 4) as usize) * 4 + plen == n, "prop:c08_emitted_tcp_data_offset");
         assert!(ref_l4_ok(v6, &src, &dst, 6, &buf[..n]), "prop:c08_emitted_tcp_checksum_verifies");
-        kani::cover!(be16(buf[16], buf[17]) == 0xffff, "emitted checksum ffff");
+        kani::cover!(be16(buf[16], buf[17]) == 0x0000, "emitted checksum 0000");
     }
 
-    // @harness props=C08 cfg=KW tier=q to=600 mem=4 unwind=16 opts=nomem covers=1 funcs=wire::TcpRepr::emit;wire::TcpPacket::fill_checksum bounds=no_options,_4_payload_bytes;_both_IPv4_addresses_and_both_ports_symbolic_(6_words)
+    // @harness props=C08 cfg=KW tier=q to=600 mem=4 unwind=8 opts=nomem covers=1 funcs=wire::TcpRepr::emit;wire::TcpPacket::fill_checksum bounds=no_options,_4_payload_bytes;_both_IPv4_addresses_symbolic_(4_words)
     #[kani::proof]
     pub(crate) fn emit_valid_tcp4_w1() {
-        emit_valid_tcp(false, 0xf, 0xf, 0x000f, 0, 0, 0, false, 4, false);
+        emit_valid_tcp(false, 0xf, 0xf, 0, 0, 0, 0, false, 4, false);
     }
 
-    // @harness props=C08 cfg=KW tier=q to=600 mem=4 unwind=16 opts=nomem covers=1 funcs=wire::TcpRepr::emit;wire::TcpPacket::fill_checksum bounds=no_options,_4_payload_bytes;_seq,_ack,_window,_control_flag_and_ACK_presence_symbolic_(6_words)
+    // @harness props=C08 cfg=KW tier=q to=600 mem=4 unwind=8 opts=nomem covers=1 funcs=wire::TcpRepr::emit;wire::TcpPacket::fill_checksum bounds=no_options,_4_payload_bytes;_both_ports,_sequence_number,_control_flag_and_ACK_presence_symbolic
     #[kani::proof]
     pub(crate) fn emit_valid_tcp4_w2() {
-        emit_valid_tcp(false, 0, 0, 0x3ff0, 0, 0, 0, true, 4, false);
+        emit_valid_tcp(false, 0, 0, 0x00ff, 0, 0, 0, true, 4, false);
     }
 
-    // @harness props=C08 cfg=KW tier=q to=600 mem=4 unwind=24 opts=nomem covers=1 funcs=wire::TcpRepr::emit;wire::TcpPacket::fill_checksum;wire::TcpOption::emit bounds=MSS+WS+SACK-permitted+timestamp_options,_payload_length_0..=5_symbolic;_MSS,_WS_and_payload_0..5_symbolic
+    // @harness props=C08 cfg=KW tier=q to=600 mem=4 unwind=8 opts=nomem covers=1 funcs=wire::TcpRepr::emit;wire::TcpPacket::fill_checksum bounds=no_options,_payload_length_0..=5_symbolic;_acknowledgement_number,_window_and_payload_0..2_symbolic
     #[kani::proof]
     pub(crate) fn emit_valid_tcp4_w3() {
-        emit_valid_tcp(false, 0, 0, 0, 0x007, 0x1f, 1, false, 5, true);
+        emit_valid_tcp(false, 0, 0, 0x3f00, 0, 0x03, 0, false, 5, true);
     }
 
-    // @harness props=C08 cfg=KW tier=q to=600 mem=4 unwind=24 opts=nomem covers=1 funcs=wire::TcpRepr::emit;wire::TcpPacket::fill_checksum;wire::TcpOption::emit bounds=MSS+WS+SACK-permitted+timestamp_options,_2_payload_bytes;_TSval,_TSecr,_control_flag_symbolic
+    // @harness props=C08 cfg=KW tier=q to=600 mem=4 unwind=14 opts=nomem covers=1 funcs=wire::TcpRepr::emit;wire::TcpPacket::fill_checksum;wire::TcpOption::emit bounds=MSS+WS+SACK-permitted+timestamp_options,_5_payload_bytes;_MSS,_WS_and_payload_2..5_symbolic
     #[kani::proof]
     pub(crate) fn emit_valid_tcp4_w4() {
+        emit_valid_tcp(false, 0, 0, 0, 0x007, 0x1c, 1, false, 5, false);
+    }
+
+    // @harness props=C08 cfg=KW tier=q to=600 mem=4 unwind=14 opts=nomem covers=1 funcs=wire::TcpRepr::emit;wire::TcpPacket::fill_checksum;wire::TcpOption::emit bounds=MSS+WS+SACK-permitted+timestamp_options,_2_payload_bytes;_TSval,_TSecr,_control_flag_symbolic
+    #[kani::proof]
+    pub(crate) fn emit_valid_tcp4_w5() {
         emit_valid_tcp(false, 0, 0, 0, 0x7f8, 0, 1, true, 2, false);
     }
 
-    // @harness props=C08 cfg=KW tier=q to=600 mem=4 unwind=24 opts=nomem covers=1 funcs=wire::TcpRepr::emit;wire::TcpPacket::fill_checksum;wire::TcpOption::emit bounds=two_SACK_blocks_(slots_0_and_2),_3_payload_bytes;_first_block_and_left_edge_of_second_symbolic_(6_words)
-    #[kani::proof]
-    pub(crate) fn emit_valid_tcp4_w5() {
-        emit_valid_tcp(false, 0, 0, 0, 0x0fff, 0, 2, false, 3, false);
-    }
-
-    // @harness props=C08 cfg=KW tier=q to=600 mem=4 unwind=24 opts=nomem covers=1 funcs=wire::TcpRepr::emit;wire::TcpPacket::fill_checksum;wire::TcpOption::emit bounds=two_SACK_blocks,_3_payload_bytes;_right_edge_of_second_block,_payload,_control_flag_symbolic
+    // @harness props=C08 cfg=KW tier=q to=600 mem=4 unwind=14 opts=nomem covers=1 funcs=wire::TcpRepr::emit;wire::TcpPacket::fill_checksum;wire::TcpOption::emit bounds=two_SACK_blocks_(slots_0_and_2),_3_payload_bytes;_first_block_symbolic_(4_words)
     #[kani::proof]
     pub(crate) fn emit_valid_tcp4_w6() {
-        emit_valid_tcp(false, 0, 0, 0, 0xf000, 0x7, 2, true, 3, false);
+        emit_valid_tcp(false, 0, 0, 0, 0x00ff, 0, 2, false, 3, false);
     }
 
-    // @harness props=C08 cfg=KW tier=q to=600 mem=4 unwind=24 opts=nomem covers=1 funcs=wire::TcpRepr::emit;wire::TcpPacket::fill_checksum bounds=no_options,_4_payload_bytes;_source_bytes_0..12_symbolic
+    // @harness props=C08 cfg=KW tier=q to=600 mem=4 unwind=14 opts=nomem covers=1 funcs=wire::TcpRepr::emit;wire::TcpPacket::fill_checksum;wire::TcpOption::emit bounds=two_SACK_blocks,_3_payload_bytes;_second_block_and_control_flag_symbolic_(4_words)
+    #[kani::proof]
+    pub(crate) fn emit_valid_tcp4_w7() {
+        emit_valid_tcp(false, 0, 0, 0, 0xff00, 0, 2, true, 3, false);
+    }
+
+    // @harness props=C08 cfg=KW tier=q to=600 mem=4 unwind=8 opts=nomem covers=1 funcs=wire::TcpRepr::emit;wire::TcpPacket::fill_checksum bounds=no_options,_4_payload_bytes;_source_bytes_0..8_symbolic
     #[kani::proof]
     pub(crate) fn emit_valid_tcp6_w1() {
-        emit_valid_tcp(true, 0x0fff, 0, 0, 0, 0, 0, false, 4, false);
+        emit_valid_tcp(true, 0x00ff, 0, 0, 0, 0, 0, false, 4, false);
     }
 
-    // @harness props=C08 cfg=KW tier=q to=600 mem=4 unwind=24 opts=nomem covers=1 funcs=wire::TcpRepr::emit;wire::TcpPacket::fill_checksum bounds=no_options,_4_payload_bytes;_source_bytes_12..16_and_destination_bytes_0..8_symbolic
+    // @harness props=C08 cfg=KW tier=q to=600 mem=4 unwind=8 opts=nomem covers=1 funcs=wire::TcpRepr::emit;wire::TcpPacket::fill_checksum bounds=no_options,_4_payload_bytes;_source_bytes_8..16_symbolic
     #[kani::proof]
     pub(crate) fn emit_valid_tcp6_w2() {
-        emit_valid_tcp(true, 0xf000, 0x00ff, 0, 0, 0, 0, false, 4, false);
+        emit_valid_tcp(true, 0xff00, 0, 0, 0, 0, 0, false, 4, false);
     }
 
-    // @harness props=C08 cfg=KW tier=q to=600 mem=4 unwind=24 opts=nomem covers=1 funcs=wire::TcpRepr::emit;wire::TcpPacket::fill_checksum bounds=no_options,_4_payload_bytes;_destination_bytes_8..16_and_both_ports_symbolic
+    // @harness props=C08 cfg=KW tier=q to=600 mem=4 unwind=8 opts=nomem covers=1 funcs=wire::TcpRepr::emit;wire::TcpPacket::fill_checksum bounds=no_options,_4_payload_bytes;_destination_bytes_0..8_symbolic
     #[kani::proof]
     pub(crate) fn emit_valid_tcp6_w3() {
-        emit_valid_tcp(true, 0, 0xff00, 0x000f, 0, 0, 0, false, 4, false);
+        emit_valid_tcp(true, 0, 0x00ff, 0, 0, 0, 0, false, 4, false);
     }
 
-    // @harness props=C08 cfg=KW tier=q to=600 mem=4 unwind=24 opts=nomem covers=1 funcs=wire::TcpRepr::emit;wire::TcpPacket::fill_checksum bounds=no_options,_payload_length_0..=5_symbolic;_seq,_window,_payload_0..5,_control_flag_symbolic
+    // @harness props=C08 cfg=KW tier=q to=600 mem=4 unwind=8 opts=nomem covers=1 funcs=wire::TcpRepr::emit;wire::TcpPacket::fill_checksum bounds=no_options,_4_payload_bytes;_destination_bytes_8..16_symbolic
     #[kani::proof]
     pub(crate) fn emit_valid_tcp6_w4() {
-        emit_valid_tcp(true, 0, 0, 0x30f0, 0, 0x1f, 0, true, 5, true);
+        emit_valid_tcp(true, 0, 0xff00, 0, 0, 0, 0, false, 4, false);
+    }
+
+    // @harness props=C08 cfg=KW tier=q to=600 mem=4 unwind=8 opts=nomem covers=1 funcs=wire::TcpRepr::emit;wire::TcpPacket::fill_checksum bounds=no_options,_payload_length_0..=5_symbolic;_both_ports,_payload_0..4_and_control_flag_symbolic
+    #[kani::proof]
+    pub(crate) fn emit_valid_tcp6_w5() {
+        emit_valid_tcp(true, 0, 0, 0x000f, 0, 0x0f, 0, true, 5, true);
     }
 
     // transmit checksumming switched off: the crate documents "a consistently zeroed checksum"
-    // @harness props=C08 cfg=KW tier=q to=600 mem=4 unwind=24 opts=nomem covers=1 funcs=wire::Ipv4Repr::emit;wire::Icmpv4Repr::emit;wire::Icmpv6Repr::emit;wire::UdpRepr::emit;wire::TcpRepr::emit bounds=per_protocol_Checksum::None_or_Checksum::Rx;_arbitrary_stale_buffer_contents;_ports/ident/seq_symbolic;_UDP/TCP/ICMPv6_over_a_symbolic_choice_of_IPv4_or_IPv6
+    // @harness props=C08 cfg=KW tier=q to=600 mem=4 unwind=8 opts=nomem covers=1 funcs=wire::Ipv4Repr::emit;wire::Icmpv4Repr::emit;wire::Icmpv6Repr::emit;wire::UdpRepr::emit;wire::TcpRepr::emit bounds=per_protocol_Checksum::None_or_Checksum::Rx;_arbitrary_stale_buffer_contents;_ports/ident/seq_symbolic;_UDP/TCP/ICMP_over_a_symbolic_choice_of_IPv4_or_IPv6
     #[kani::proof]
     pub(crate) fn caps_tx_off_zero_field() {
         let v6: bool = kani::any();
@@ -737,7 +819,7 @@ mod v_wire_cksum {
         let b = ipv4_emit(0xf00, false, &caps);
         assert!(b[10] == 0 && b[11] == 0, "prop:c08_tx_off_ipv4_checksum_field_zeroed");
         let mut e: [u8; 16] = kani::any();
-        echo_emit(v6, &src, &dst, 0xf, 0, 4, &caps, &mut e);
+        echo_emit(v6, 2, &src, &dst, 0xf, 0, 4, &caps, &mut e);
         assert!(e[2] == 0 && e[3] == 0, "prop:c08_tx_off_icmp_checksum_field_zeroed");
         let mut u: [u8; 16] = kani::any();
         udp_emit(v6, &src, &dst, 0xf, 0, 4, &caps, &mut u);
@@ -749,10 +831,7 @@ mod v_wire_cksum {
     }
 
     // receive checksumming switched off ("ignore checksum"): any checksum field is accepted
-    // @harness props=C08 cfg=KW tier=q to=600 mem=4 unwind=24 opts=nomem covers=1 funcs=wire::Ipv4Repr::parse;wire::Icmpv4Repr::parse;wire::Icmpv6Repr::parse;wire::UdpRepr::parse;wire::TcpRepr::parse bounds=per_protocol_Checksum::None_or_Checksum::Tx;_arbitrary_checksum_field;_fixed_well-formed_packets;_symbolic_choice_of_IPv4_or_IPv6
-    #[kani::proof]
-    pub(crate) fn caps_rx_off_accepts_any_field() {
-        let v6: bool = kani::any();
+    fn caps_rx_off(v6: bool) {
         let src = SRC_FIX;
         let dst = DST_FIX;
         let tx = ChecksumCapabilities::ignored();
@@ -763,12 +842,14 @@ mod v_wire_cksum {
         caps.udp = rx_off();
         caps.tcp = rx_off();
         let c: [u8; 2] = kani::any();
-        let mut b = ipv4_emit(0, true, &tx);
-        b[10] = c[0];
-        b[11] = c[1];
-        assert!(Ipv4Repr::parse(&Ipv4Packet::new_unchecked(&b[..]), &caps).is_ok(), "prop:c08_rx_off_ipv4_checksum_ignored");
+        if !v6 {
+            let mut b = ipv4_emit(0, true, &tx);
+            b[10] = c[0];
+            b[11] = c[1];
+            assert!(Ipv4Repr::parse(&Ipv4Packet::new_unchecked(&b[..]), &caps).is_ok(), "prop:c08_rx_off_ipv4_checksum_ignored");
+        }
         let mut e = [0u8; 16];
-        let n = echo_emit(v6, &src, &dst, 0, 0, 4, &tx, &mut e);
+        let n = echo_emit(v6, 0, &src, &dst, 0, 0, 4, &tx, &mut e);
         e[2] = c[0];
         e[3] = c[1];
         assert!(echo_parse_ok(v6, &src, &dst, &e[..n], &caps), "prop:c08_rx_off_icmp_checksum_ignored");
@@ -782,50 +863,60 @@ mod v_wire_cksum {
         t[16] = c[0];
         t[17] = c[1];
         assert!(tcp_parse_ok(v6, &src, &dst, &t[..n], &caps), "prop:c08_rx_off_tcp_checksum_ignored");
-        kani::cover!(v6 && c[0] == 0x5a, "arbitrary field over IPv6");
+        kani::cover!(c[0] == 0x5a && matches!(caps.tcp, Checksum::Tx), "arbitrary field, Checksum::Tx");
+    }
+
+    // @harness props=C08 cfg=KW tier=q to=600 mem=4 unwind=8 opts=nomem covers=1 funcs=wire::Ipv4Repr::parse;wire::Icmpv4Repr::parse;wire::UdpRepr::parse;wire::TcpRepr::parse bounds=per_protocol_Checksum::None_or_Checksum::Tx;_arbitrary_checksum_field;_fixed_well-formed_packets_over_IPv4
+    #[kani::proof]
+    pub(crate) fn caps_rx_off_accepts_any_field_v4() {
+        caps_rx_off(false);
+    }
+
+    // @harness props=C08 cfg=KW tier=q to=600 mem=4 unwind=8 opts=nomem covers=1 funcs=wire::Icmpv6Repr::parse;wire::UdpRepr::parse;wire::TcpRepr::parse bounds=per_protocol_Checksum::None_or_Checksum::Tx;_arbitrary_checksum_field;_fixed_well-formed_packets_over_IPv6
+    #[kani::proof]
+    pub(crate) fn caps_rx_off_accepts_any_field_v6() {
+        caps_rx_off(true);
     }
 
     // ================================================================== (c) receive side
 
     /// strict = parse with checksums on, lax = parse with checksums ignored, ok = reference verdict
     fn rx_obligations(ok: bool, strict: bool, lax: bool) {
+        kani::cover!(!ok && lax, "checksum wrong on an otherwise acceptable packet");
+        kani::cover!(ok && strict, "parse Ok reached");
         assert!(ok || !strict, "prop:c08_packet_with_bad_checksum_rejected");
         assert!(!(ok && lax) || strict, "prop:c08_valid_checksum_not_rejected");
         assert!(lax || !strict, "prop:c08_checksum_check_only_rejects");
     }
 
-    fn reject_ipv4(mask: u32) {
+    fn rx_ipv4(mask: u32, arbitrary_field: bool) {
         let mut buf = ipv4_emit(mask, true, &ChecksumCapabilities::default());
-        corrupt(&mut buf, 20);
+        if arbitrary_field {
+            buf[10] = kani::any();
+            buf[11] = kani::any();
+        } else {
+            corrupt(&mut buf, 0, 20);
+        }
         let ok = ref_ipv4_ok(&buf);
         let strict = Ipv4Repr::parse(&Ipv4Packet::new_unchecked(&buf[..]), &ChecksumCapabilities::default()).is_ok();
         let lax = Ipv4Repr::parse(&Ipv4Packet::new_unchecked(&buf[..]), &ChecksumCapabilities::ignored()).is_ok();
         rx_obligations(ok, strict, lax);
-        kani::cover!(!ok && lax, "mask made the checksum fail on an otherwise acceptable header");
-        kani::cover!(ok && strict, "checksum-preserving two-byte change: parse Ok reached");
     }
 
-    // @harness props=C08 cfg=KW tier=q to=600 mem=4 unwind=16 opts=nomem covers=2 funcs=wire::Ipv4Repr::parse;wire::Ipv4Packet::verify_checksum bounds=emitted_header_(source_address_symbolic)_+_8_payload_bytes;_non-zero_XOR_mask_on_1_or_2_header_bytes_at_symbolic_positions_0..20
+    // @harness props=C08 cfg=KW tier=q to=600 mem=4 unwind=10 opts=nomem covers=2 funcs=wire::Ipv4Repr::parse;wire::Ipv4Packet::verify_checksum bounds=emitted_header_(source_address_symbolic)_+_8_payload_bytes;_non-zero_XOR_mask_on_1_or_2_header_bytes_at_symbolic_positions_0..20_(IHL_may_grow_into_the_payload)
     #[kani::proof]
     pub(crate) fn reject_invalid_ipv4() {
-        reject_ipv4(0x00f);
+        rx_ipv4(0x00f, false);
     }
 
-    // @harness props=C08 cfg=KW tier=q to=600 mem=4 unwind=16 opts=nomem covers=2 funcs=wire::Ipv4Repr::parse;wire::Ipv4Packet::verify_checksum bounds=emitted_header_(destination,_protocol,_hop_limit_symbolic)_+_8_payload_bytes;_arbitrary_checksum_field
+    // @harness props=C08 cfg=KW tier=q to=600 mem=4 unwind=10 opts=nomem covers=2 funcs=wire::Ipv4Repr::parse;wire::Ipv4Packet::verify_checksum bounds=emitted_header_(destination,_protocol,_hop_limit_symbolic)_+_8_payload_bytes;_arbitrary_checksum_field
     #[kani::proof]
     pub(crate) fn accept_implies_valid_ipv4() {
-        let mut buf = ipv4_emit(0x3f0, true, &ChecksumCapabilities::default());
-        buf[10] = kani::any();
-        buf[11] = kani::any();
-        let ok = ref_ipv4_ok(&buf);
-        let strict = Ipv4Repr::parse(&Ipv4Packet::new_unchecked(&buf[..]), &ChecksumCapabilities::default()).is_ok();
-        assert!(ok || !strict, "prop:c08_packet_with_bad_checksum_rejected");
-        assert!(!ok || strict, "prop:c08_valid_checksum_not_rejected");
-        kani::cover!(strict, "parse Ok reached");
-        kani::cover!(!ok, "wrong checksum field");
+        rx_ipv4(0x3f0, true);
     }
 
-    fn reject_l4(proto: u8, v6: bool, smask: u32, dmask: u32, fmask: u32, arbitrary_field: bool) {
+    /// proto 1 = ICMP echo request (ICMPv4 / ICMPv6), 17 = UDP, 6 = TCP without options; 4 payload bytes
+    fn rx_l4(proto: u8, v6: bool, smask: u32, dmask: u32, fmask: u32, arbitrary_field: bool, first: usize) {
         let src = pick(SRC_FIX, smask);
         let dst = pick(DST_FIX, dmask);
         let caps = ChecksumCapabilities::default();
@@ -833,7 +924,7 @@ mod v_wire_cksum {
         let mut small = [0u8; 16];
         let mut big = [0u8; 48];
         let (n, cks) = match proto {
-            1 => (echo_emit(v6, &src, &dst, fmask, 0, 4, &caps, &mut small), 2),
+            1 => (echo_emit(v6, 0, &src, &dst, fmask, 0, 4, &caps, &mut small), 2),
             17 => (udp_emit(v6, &src, &dst, fmask, 0, 4, &caps, &mut small), 6),
             _ => (tcp_emit(v6, &src, &dst, fmask, 0, 0, 0, false, 4, &caps, &mut big), 16),
         };
@@ -842,7 +933,7 @@ mod v_wire_cksum {
             seg[cks] = kani::any();
             seg[cks + 1] = kani::any();
         } else {
-            corrupt(seg, n);
+            corrupt(seg, first, n);
         }
         let field = be16(seg[cks], seg[cks + 1]);
         let (ok, strict, lax) = match proto {
@@ -854,91 +945,89 @@ mod v_wire_cksum {
                 if v6 {
                     kani::assume(field != 0);
                 }
-                let r = ref_udp_ok(v6, &src, &dst, seg) || (!v6 && field == 0 && be16(seg[4], seg[5]) as usize >= 8 && be16(seg[4], seg[5]) as usize <= n);
+                let r = ref_udp_ok(v6, &src, &dst, seg) || (!v6 && field == 0 && ref_udp_len_ok(seg));
                 (r, udp_parse_ok(v6, &src, &dst, seg, &caps), udp_parse_ok(v6, &src, &dst, seg, &lax_caps))
             }
             _ => (ref_l4_ok(v6, &src, &dst, 6, seg), tcp_parse_ok(v6, &src, &dst, seg, &caps), tcp_parse_ok(v6, &src, &dst, seg, &lax_caps)),
         };
         rx_obligations(ok, strict, lax);
-        kani::cover!(!ok && lax, "mask made the checksum fail on an otherwise acceptable packet");
-        kani::cover!(ok && strict, "parse Ok reached");
     }
 
-    // @harness props=C08 cfg=KW tier=q to=600 mem=4 unwind=16 opts=nomem covers=2 funcs=wire::Icmpv4Repr::parse;wire::Icmpv4Packet::verify_checksum bounds=emitted_echo_(ident_symbolic,_4_data_bytes);_non-zero_XOR_mask_on_1_or_2_bytes_at_symbolic_positions_0..12
+    // @harness props=C08 cfg=KW tier=q to=600 mem=4 unwind=8 opts=nomem covers=2 funcs=wire::Icmpv4Repr::parse;wire::Icmpv4Packet::verify_checksum bounds=emitted_echo_request_(ident_symbolic,_4_data_bytes);_non-zero_XOR_mask_on_1_or_2_bytes_at_symbolic_positions_0..12
     #[kani::proof]
     pub(crate) fn reject_invalid_icmpv4() {
-        reject_l4(1, false, 0, 0, 0x3, false);
+        rx_l4(1, false, 0, 0, 0x3, false, 0);
     }
 
-    // @harness props=C08 cfg=KW tier=q to=600 mem=4 unwind=24 opts=nomem covers=2 funcs=wire::Icmpv6Repr::parse;wire::Icmpv6Packet::verify_checksum bounds=emitted_echo_(ident_symbolic,_4_data_bytes);_non-zero_XOR_mask_on_1_or_2_bytes_at_symbolic_positions_0..12
+    // @harness props=C08 cfg=KW tier=q to=600 mem=6 unwind=8 opts=nomem covers=2 funcs=wire::Icmpv6Repr::parse;wire::Icmpv6Packet::verify_checksum bounds=emitted_echo_request_(ident_symbolic,_4_data_bytes);_non-zero_XOR_mask_on_1_or_2_bytes_at_symbolic_positions_0..12_(the_type_byte_may_turn_into_any_message_type)
     #[kani::proof]
     pub(crate) fn reject_invalid_icmpv6() {
-        reject_l4(1, true, 0, 0, 0x3, false);
+        rx_l4(1, true, 0, 0, 0x3, false, 0);
     }
 
-    // @harness props=C08 cfg=KW tier=q to=600 mem=4 unwind=16 opts=nomem covers=2 funcs=wire::UdpRepr::parse;wire::UdpPacket::verify_checksum bounds=emitted_datagram_(source_port_symbolic,_4_payload_bytes);_non-zero_XOR_mask_on_1_or_2_bytes_at_symbolic_positions_0..12
+    // @harness props=C08 cfg=KW tier=q to=600 mem=4 unwind=8 opts=nomem covers=2 funcs=wire::UdpRepr::parse;wire::UdpPacket::verify_checksum bounds=emitted_datagram_(source_port_symbolic,_4_payload_bytes);_non-zero_XOR_mask_on_1_or_2_bytes_at_symbolic_positions_0..12
     #[kani::proof]
     pub(crate) fn reject_invalid_udp4() {
-        reject_l4(17, false, 0, 0, 0x3, false);
+        rx_l4(17, false, 0, 0, 0x3, false, 0);
     }
 
-    // @harness props=C08 cfg=KW tier=q to=600 mem=4 unwind=24 opts=nomem covers=2 funcs=wire::UdpRepr::parse;wire::UdpPacket::verify_checksum bounds=emitted_datagram_(source_port_symbolic,_4_payload_bytes);_non-zero_XOR_mask_on_1_or_2_bytes_at_symbolic_positions_0..12;_resulting_checksum_field_non-zero
+    // @harness props=C08 cfg=KW tier=q to=600 mem=4 unwind=8 opts=nomem covers=2 funcs=wire::UdpRepr::parse;wire::UdpPacket::verify_checksum bounds=emitted_datagram_(source_port_symbolic,_4_payload_bytes);_non-zero_XOR_mask_on_1_or_2_bytes_at_symbolic_positions_0..12;_resulting_checksum_field_non-zero
     #[kani::proof]
     pub(crate) fn reject_invalid_udp6() {
-        reject_l4(17, true, 0, 0, 0x3, false);
+        rx_l4(17, true, 0, 0, 0x3, false, 0);
     }
 
-    // @harness props=C08 cfg=KW tier=q to=600 mem=4 unwind=16 opts=nomem covers=2 funcs=wire::TcpRepr::parse;wire::TcpPacket::verify_checksum bounds=emitted_segment_(source_port_symbolic,_no_options,_4_payload_bytes);_non-zero_XOR_mask_on_1_or_2_bytes_at_symbolic_positions_0..24
+    // @harness props=C08 cfg=KW tier=q to=600 mem=6 unwind=8 opts=nomem covers=2 funcs=wire::TcpRepr::parse;wire::TcpPacket::verify_checksum bounds=emitted_segment_(source_port_symbolic,_no_options,_4_payload_bytes);_non-zero_XOR_mask_on_1_or_2_bytes_at_symbolic_positions_0..24_(the_data_offset_may_turn_the_payload_into_options)
     #[kani::proof]
     pub(crate) fn reject_invalid_tcp4() {
-        reject_l4(6, false, 0, 0, 0x3, false);
+        rx_l4(6, false, 0, 0, 0x3, false, 0);
     }
 
-    // @harness props=C08 cfg=KW tier=q to=600 mem=4 unwind=24 opts=nomem covers=2 funcs=wire::TcpRepr::parse;wire::TcpPacket::verify_checksum bounds=emitted_segment_(source_port_symbolic,_no_options,_4_payload_bytes);_non-zero_XOR_mask_on_1_or_2_bytes_at_symbolic_positions_0..24
+    // @harness props=C08 cfg=KW tier=q to=600 mem=6 unwind=8 opts=nomem covers=2 funcs=wire::TcpRepr::parse;wire::TcpPacket::verify_checksum bounds=emitted_segment_(source_port_symbolic,_no_options,_4_payload_bytes);_non-zero_XOR_mask_on_1_or_2_bytes_at_symbolic_positions_0..24
     #[kani::proof]
     pub(crate) fn reject_invalid_tcp6() {
-        reject_l4(6, true, 0, 0, 0x3, false);
+        rx_l4(6, true, 0, 0, 0x3, false, 0);
     }
 
-    // @harness props=C08 cfg=KW tier=q to=600 mem=4 unwind=16 opts=nomem covers=2 funcs=wire::Icmpv4Repr::parse;wire::Icmpv4Packet::verify_checksum bounds=emitted_echo_(ident,_seq_symbolic,_4_data_bytes);_arbitrary_checksum_field
+    // @harness props=C08 cfg=KW tier=q to=600 mem=4 unwind=8 opts=nomem covers=2 funcs=wire::Icmpv4Repr::parse;wire::Icmpv4Packet::verify_checksum bounds=emitted_echo_request_(ident,_seq_symbolic,_4_data_bytes);_arbitrary_checksum_field
     #[kani::proof]
     pub(crate) fn accept_implies_valid_icmpv4() {
-        reject_l4(1, false, 0, 0, 0xf, true);
+        rx_l4(1, false, 0, 0, 0xf, true, 0);
     }
 
-    // @harness props=C08 cfg=KW tier=q to=600 mem=4 unwind=24 opts=nomem covers=2 funcs=wire::Icmpv6Repr::parse;wire::Icmpv6Packet::verify_checksum bounds=emitted_echo_(ident,_seq,_source_bytes_14..16,_destination_bytes_0..2_symbolic,_4_data_bytes);_arbitrary_checksum_field
+    // @harness props=C08 cfg=KW tier=q to=600 mem=4 unwind=8 opts=nomem covers=2 funcs=wire::Icmpv6Repr::parse;wire::Icmpv6Packet::verify_checksum bounds=emitted_echo_request_(ident,_seq,_source_bytes_14..16,_destination_bytes_0..2_symbolic,_4_data_bytes);_arbitrary_checksum_field
     #[kani::proof]
     pub(crate) fn accept_implies_valid_icmpv6() {
-        reject_l4(1, true, 0xc000, 0x0003, 0xf, true);
+        rx_l4(1, true, 0xc000, 0x0003, 0xf, true, 0);
     }
 
-    // @harness props=C08 cfg=KW tier=q to=600 mem=4 unwind=16 opts=nomem covers=2 funcs=wire::UdpRepr::parse;wire::UdpPacket::verify_checksum bounds=emitted_datagram_(ports,_source_bytes_2..4,_destination_bytes_0..2_symbolic,_4_payload_bytes);_arbitrary_checksum_field_(zero_accepted_over_IPv4)
+    // @harness props=C08 cfg=KW tier=q to=600 mem=4 unwind=8 opts=nomem covers=2 funcs=wire::UdpRepr::parse;wire::UdpPacket::verify_checksum bounds=emitted_datagram_(ports,_source_bytes_2..4,_destination_bytes_0..2_symbolic,_4_payload_bytes);_arbitrary_checksum_field_(zero_accepted_over_IPv4)
     #[kani::proof]
     pub(crate) fn accept_implies_valid_udp4() {
-        reject_l4(17, false, 0xc, 0x3, 0xf, true);
+        rx_l4(17, false, 0xc, 0x3, 0xf, true, 0);
     }
 
-    // @harness props=C08 cfg=KW tier=q to=600 mem=4 unwind=24 opts=nomem covers=2 funcs=wire::UdpRepr::parse;wire::UdpPacket::verify_checksum bounds=emitted_datagram_(ports,_source_bytes_14..16,_destination_bytes_0..2_symbolic,_4_payload_bytes);_arbitrary_non-zero_checksum_field
+    // @harness props=C08 cfg=KW tier=q to=600 mem=4 unwind=8 opts=nomem covers=2 funcs=wire::UdpRepr::parse;wire::UdpPacket::verify_checksum bounds=emitted_datagram_(ports,_source_bytes_14..16,_destination_bytes_0..2_symbolic,_4_payload_bytes);_arbitrary_non-zero_checksum_field
     #[kani::proof]
     pub(crate) fn accept_implies_valid_udp6() {
-        reject_l4(17, true, 0xc000, 0x0003, 0xf, true);
+        rx_l4(17, true, 0xc000, 0x0003, 0xf, true, 0);
     }
 
-    // @harness props=C08 cfg=KW tier=q to=600 mem=4 unwind=16 opts=nomem covers=2 funcs=wire::TcpRepr::parse;wire::TcpPacket::verify_checksum bounds=emitted_segment_(ports,_source_bytes_2..4,_destination_bytes_0..2_symbolic,_no_options,_4_payload_bytes);_arbitrary_checksum_field
+    // @harness props=C08 cfg=KW tier=q to=600 mem=4 unwind=8 opts=nomem covers=2 funcs=wire::TcpRepr::parse;wire::TcpPacket::verify_checksum bounds=emitted_segment_(ports,_source_bytes_2..4,_destination_bytes_0..2_symbolic,_no_options,_4_payload_bytes);_arbitrary_checksum_field
     #[kani::proof]
     pub(crate) fn accept_implies_valid_tcp4() {
-        reject_l4(6, false, 0xc, 0x3, 0xf, true);
+        rx_l4(6, false, 0xc, 0x3, 0xf, true, 0);
     }
 
-    // @harness props=C08 cfg=KW tier=q to=600 mem=4 unwind=24 opts=nomem covers=2 funcs=wire::TcpRepr::parse;wire::TcpPacket::verify_checksum bounds=emitted_segment_(ports,_source_bytes_14..16,_destination_bytes_0..2_symbolic,_no_options,_4_payload_bytes);_arbitrary_checksum_field
+    // @harness props=C08 cfg=KW tier=q to=600 mem=4 unwind=8 opts=nomem covers=2 funcs=wire::TcpRepr::parse;wire::TcpPacket::verify_checksum bounds=emitted_segment_(ports,_source_bytes_14..16,_destination_bytes_0..2_symbolic,_no_options,_4_payload_bytes);_arbitrary_checksum_field
     #[kani::proof]
     pub(crate) fn accept_implies_valid_tcp6() {
-        reject_l4(6, true, 0xc000, 0x0003, 0xf, true);
+        rx_l4(6, true, 0xc000, 0x0003, 0xf, true, 0);
     }
 
     // RFC 8200 section 8.1: over IPv6 the UDP checksum is not optional; a datagram whose checksum
     // field is zero must be discarded.  Only UDP over IPv4 may carry the 'no checksum' value.
-    // @harness props=C08 cfg=KW tier=q to=600 mem=4 unwind=24 opts=nomem covers=1 funcs=wire::UdpRepr::parse;wire::UdpPacket::verify_checksum bounds=emitted_datagram_(ports_symbolic,_4_payload_bytes);_checksum_field_zero;_IPv4_or_IPv6_(symbolic)
+    // @harness props=C08 cfg=KW tier=q to=600 mem=4 unwind=8 opts=nomem covers=1 funcs=wire::UdpRepr::parse;wire::UdpPacket::verify_checksum bounds=emitted_datagram_(ports_symbolic,_4_payload_bytes);_checksum_field_zero;_IPv4_or_IPv6_(symbolic)
     #[kani::proof]
     pub(crate) fn udp6_zero_checksum_rejected() {
         let v6: bool = kani::any();
@@ -950,11 +1039,11 @@ mod v_wire_cksum {
         buf[6] = 0;
         buf[7] = 0;
         let strict = udp_parse_ok(v6, &src, &dst, &buf[..n], &caps);
+        kani::cover!(v6, "zero checksum field over IPv6");
         if v6 {
             assert!(!strict, "prop:c08_only_udp_over_ipv4_may_omit_checksum");
         } else {
             assert!(strict, "prop:c08_udp_over_ipv4_may_omit_checksum");
         }
-        kani::cover!(v6, "zero checksum field over IPv6");
     }
 }
